@@ -1484,3 +1484,22 @@ Proof. unfold find_preds_g, find_preds, find_preds_gen. now rewrite fold_step_g_
 
 Lemma find_preds_custom_g_eq s c fs x : find_preds_custom_g s c fs x = find_preds_custom s c fs x.
 Proof. unfold find_preds_custom_g, find_preds_custom. now rewrite fold_step_g_eq. Qed.
+
+(* ------------------------------------------------------------------ ExtendedCopy's error origins *)
+Lemma extended_copy_x_spec resolve roots_ok copy_ok tag_ok src_ref dst_ref tags :
+  match extended_copy_x resolve roots_ok copy_ok tag_ok src_ref dst_ref tags with
+  | XOk node tags' =>
+      extended_copy resolve (fun _ => (roots_ok && copy_ok)%bool) tag_ok src_ref dst_ref tags = Some (node, tags')
+  | XErr op =>
+      extended_copy resolve (fun _ => (roots_ok && copy_ok)%bool) tag_ok src_ref dst_ref tags = None /\
+      match op with
+      | OpResolve => resolve src_ref = None
+      | OpFindPredecessors => resolve src_ref <> None /\ roots_ok = false
+      | OpCopy => resolve src_ref <> None /\ roots_ok = true /\ copy_ok = false
+      | OpTag => resolve src_ref <> None /\ roots_ok = true /\ copy_ok = true /\ tag_ok = false
+      end
+  end.
+Proof.
+  unfold extended_copy_x, extended_copy. destruct (resolve src_ref) as [n|]; [|split; reflexivity].
+  destruct roots_ok, copy_ok, tag_ok; simpl; repeat split; auto; discriminate.
+Qed.
